@@ -292,6 +292,10 @@ def nodeStep (d : DState) (C : Crypto) (args : List String) : DState × String :
     (d, match inventoryReply C d.params n.mgr.coinstate (ids.map hx) with
       | .ok out => "ok " ++ String.intercalate "," (out.map short)
       | .error e => "err " ++ errKind e)
+  | "walk" :: fuel :: ids =>
+    (d, match C10Walk.walk C d.params n.mgr.coinstate fuel.toNat! (ids.map hx) with
+      | .ok out => "ok " ++ String.intercalate "," (out.map short)
+      | .error e => "err " ++ errKind e)
   | ["digest"] => (d, nodeDigest C n)
   | _ => (d, "bad-op")
 
